@@ -120,6 +120,9 @@ func (w *world) snapshot() *state {
 
 // logf logs a line of the step in progress and keeps it for the memo.
 func (w *world) logf(format string, a ...any) {
+	if w.quiet {
+		return
+	}
 	l := fmt.Sprintf(format, a...)
 	w.steplog = append(w.steplog, l)
 	w.r.Logf("step %d: %s", w.step, l)
